@@ -219,6 +219,9 @@ func Next(t *rapid.T, e *drv.Env, cfg Cfg) drv.Op {
 		if cfg.Faults > 0 {
 			ws = append(ws, weighted{cfg.Faults, drv.OpArmFault})
 		}
+		if cfg.ErrProbes {
+			ws = append(ws, weighted{3, drv.OpClosedTxUse})
+		}
 		k := pick(t, "txop", ws)
 		switch k {
 		case drv.OpArmFault:
